@@ -3,6 +3,7 @@
 package connectconformance
 
 import (
+	"errors"
 	"sort"
 	"strings"
 
@@ -130,3 +131,80 @@ func runForVerif(cases []configCase, kf, kl, run, skip *testTrie, suites map[str
 }
 
 var runFn = run
+
+// VerifC08Op is one call of the testResults API: K = pass | assert (assert with a matching /
+// deviating result) | clienterr (failed) | neither (setOutcome(n, false, err)) | setup
+// (setOutcome(n, true, err)) | cnr (setOutcome(n, true, couldNotRunError)) | start (failedToStart)
+// | remaining (failRemaining) | sideband (recordSideband); Ns = the test names it is about.
+type VerifC08Op struct {
+	K  string
+	Ns []string
+}
+
+// VerifC08Marked builds testResults with tries made from the given --known-failing / --known-flaky
+// PATTERN lists (as Run does), issues the calls in order and returns report()'s verdict and
+// everything it printed: whether a name is treated as known-failing / known-flaky, observed where the
+// user sees it.
+func VerifC08Marked(failing, flaky []string, total int, ops []VerifC08Op) (bool, []string) {
+	kf := parsePatterns(failing)
+	if kf == nil {
+		kf = &testTrie{} // as Run does
+	}
+	kl := parsePatterns(flaky)
+	if kl == nil {
+		kl = &testTrie{}
+	}
+	res := newResults(total, kf, kl, nil)
+	def := func(name string) *conformancev1.TestCase {
+		return &conformancev1.TestCase{
+			Request: &conformancev1.ClientCompatRequest{TestName: name, StreamType: conformancev1.StreamType_STREAM_TYPE_UNARY},
+			ExpectedResponse: &conformancev1.ClientResponseResult{
+				Payloads: []*conformancev1.ConformancePayload{{Data: []byte("data")}},
+			},
+		}
+	}
+	defs := func(names []string) []*conformancev1.TestCase {
+		out := make([]*conformancev1.TestCase, len(names))
+		for i, n := range names {
+			out[i] = def(n)
+		}
+		return out
+	}
+	for _, op := range ops {
+		switch op.K {
+		case "start":
+			res.failedToStart(defs(op.Ns), errors.New("error starting server: boom"))
+			continue
+		case "remaining":
+			res.failRemaining(defs(op.Ns), &failedToGetResultError{errNoOutcome})
+			continue
+		}
+		for _, n := range op.Ns {
+			switch op.K {
+			case "pass":
+				res.assert(n, def(n), &conformancev1.ClientResponseResult{
+					Payloads: []*conformancev1.ConformancePayload{{Data: []byte("data")}},
+				})
+			case "assert":
+				res.assert(n, def(n), &conformancev1.ClientResponseResult{
+					Payloads: []*conformancev1.ConformancePayload{{Data: []byte("other")}},
+				})
+			case "clienterr":
+				res.failed(n, &conformancev1.ClientErrorResult{Message: "client could not do it"})
+			case "neither":
+				res.setOutcome(n, false, errors.New("client returned a response with neither an error nor result"))
+			case "setup":
+				res.setOutcome(n, true, errors.New("server process terminated unexpectedly"))
+			case "cnr":
+				res.setOutcome(n, true, &couldNotRunError{errClosed})
+			case "sideband":
+				res.recordSideband(n, "peer feedback")
+			default:
+				panic("VerifC08Marked: unknown op " + op.K)
+			}
+		}
+	}
+	printer := &internal.SimplePrinter{}
+	ok := res.report(printer)
+	return ok, printer.Messages
+}
